@@ -3,7 +3,7 @@ import itertools
 
 from hypothesis import strategies as st
 
-from vlib.core import Part, Violation, call, canonical
+from vlib.core import Part, Violation, call, canonical, watchdog
 from vlib.models import TableGrader
 from vlib.oracles import best_assignments
 
@@ -16,7 +16,7 @@ RULE = ("A case is a JSON description of a ListGrader tree (leaves: table-driven
         "permutations. Exhaustive parts: every 2x2 credit matrix over {0,.1,1/3,.5,.7,1} x ordered/unordered x "
         "partial_credit x both input orders; every 3x3 matrix over {0,.5,1} (unordered); every pair of 2x2 matrices "
         "over {0,.5,1} as two alternative answer lists; every equal-size grouping of 4/6/8 inputs (unordered) and every "
-        "grouping of 2..6 inputs (7 in the thorough tier) into contiguous-numbered groups (ordered, list of "
+        "grouping of 2..5 inputs (2..7 in the thorough tier) into contiguous-numbered groups (ordered, list of "
         "subgraders). Random parts: flat graders n=2..6 (all n! input orders for n<=5, 6 sampled orders for n=6) and "
         "grouped/nested graders with up to 8 inputs and depth 3. Oracle: an independent, identically configured copy "
         "of every LEAF grader gives the per-(answer, input) result; everything a ListGrader adds is recomputed by the "
@@ -123,18 +123,22 @@ class LeafOutcome:
 class RefLeaf:
     """An independent, identically configured leaf grader (TableGrader or SingleListGrader)."""
 
-    def __init__(self, g, rec):
+    def __init__(self, g):
         self.kind = g['k']
         self.ref = build(g)
+        self.validated = {}
         self.cache = {}
-        self.rec = rec
 
-    def outcome(self, ans, inp):
-        key = (canonical(ans), inp)
+    def outcome(self, ans, inp, akey=None):
+        akey = akey or canonical(ans)
+        key = (akey, inp)
         o = self.cache.get(key)
         if o is None:
-            validated = self.ref.post_schema_ans_val(self.ref.schema_answers(to_answer(ans)))
-            o = self.cache[key] = LeafOutcome(self.ref.check(validated, inp))
+            v = self.validated.get(akey)
+            if v is None:
+                # exactly what ListGrader is documented to do with each element of its answers
+                v = self.validated[akey] = self.ref.post_schema_ans_val(self.ref.schema_answers(to_answer(ans)))
+            o = self.cache[key] = LeafOutcome(self.ref.check(v, inp))
         return o
 
 
@@ -185,23 +189,39 @@ class ListOutcome:
 
 
 class RefList:
-    def __init__(self, g, rec):
+    def __init__(self, g):
         self.kind = 'L'
         self.ordered, self.pc = g['ordered'], g['pc']
         subs = g['subs']
         self.sublist = isinstance(subs, list)
-        self.subs = [make_ref(s, rec) for s in subs] if self.sublist else make_ref(subs, rec)
+        self.subs = [make_ref(s) for s in subs] if self.sublist else make_ref(subs)
         grouping = g.get('grouping') or []
         if grouping:
             m = max(grouping)
             self.groups = [[i for i, lab in enumerate(grouping) if lab == k + 1] for k in range(m)]
         else:
             self.groups = None
+        self.akeys = {}       # id(answer list) -> canonical text of each answer (the spec outlives the judge call)
+        self.solved = {}      # (answers, multiset of grouped inputs) -> optimum and optimal assignments
+        self.cache = {}
 
     def sub(self, a):
         return self.subs[a] if self.sublist else self.subs
 
-    def outcome(self, ans, inputs):
+    def keys_of(self, lst):
+        k = self.akeys.get(id(lst))
+        if k is None:
+            k = self.akeys[id(lst)] = (lst, [canonical(a) for a in lst])
+        return k[1]
+
+    def outcome(self, ans, inputs, akey=None):
+        ck = (akey or canonical(ans), tuple(inputs))
+        o = self.cache.get(ck)
+        if o is None:
+            o = self.cache[ck] = self.compute(ans, inputs)
+        return o
+
+    def compute(self, ans, inputs):
         lists = ans['lists'] if isinstance(ans, dict) else [ans]
         groups = self.groups if self.groups is not None else [[i] for i in range(len(inputs))]
         m = len(groups)
@@ -209,18 +229,40 @@ class RefList:
         per_list = []
         for lst in lists:
             assert len(lst) == m
+            ak = self.keys_of(lst)
             if self.ordered:
-                row = [self.sub(a).outcome(lst[a], gin[a]) for a in range(m)]
+                row = [self.sub(a).outcome(lst[a], gin[a], ak[a]) for a in range(m)]
                 per_list.append((sum(o.total for o in row), [tuple(range(m))], (lambda a, g, row=row: row[a])))
-            else:
-                mat = [[self.sub(a).outcome(lst[a], gin[g]) for g in range(m)] for a in range(m)]
-                best, perms = best_assignments([[o.total for o in r] for r in mat], tol=TOL)
-                per_list.append((best, perms, (lambda a, g, mat=mat: mat[a][g])))
+                continue
+            mat = [[self.sub(a).outcome(lst[a], gin[g], ak[a]) for g in range(m)] for a in range(m)]
+            # the n! search is done once per multiset of inputs: a reordering of the inputs only relabels columns
+            # (equal inputs give equal columns, so any consistent relabelling is right)
+            gk = [x if isinstance(x, str) else '\x00'.join(x) for x in gin]
+            order = sorted(range(m), key=lambda g: gk[g])
+            sk = (tuple(ak), tuple(gk[g] for g in order))
+            hit = self.solved.get(sk)
+            if hit is None:
+                hit = self.solved[sk] = best_assignments([[mat[a][order[s]].total for s in range(m)]
+                                                          for a in range(m)], tol=TOL)
+            best, sperms = hit
+            perms = [tuple(order[s] for s in p) for p in sperms]
+            per_list.append((best, perms, (lambda a, g, mat=mat: mat[a][g])))
         return ListOutcome(self, groups, per_list)
 
 
-def make_ref(g, rec):
-    return RefList(g, rec) if g['k'] == 'L' else RefLeaf(g, rec)
+REF_LEAVES = {}
+
+
+def make_ref(g):
+    if g['k'] == 'L':
+        return RefList(g)
+    key = canonical(g)
+    leaf = REF_LEAVES.get(key)
+    if leaf is None:
+        if len(REF_LEAVES) > 3000:
+            REF_LEAVES.clear()
+        leaf = REF_LEAVES[key] = RefLeaf(g)
+    return leaf
 
 
 # ----------------------------------------------------------------------------------------------------
@@ -333,7 +375,11 @@ def judge_case(spec, rec):
     if st_ == 'err':
         raise Violation('config-rejected/' + type(grader).__name__,
                         'a documented configuration was refused: %s' % str(grader)[:300])
-    top = make_ref(g, rec)
+    return judge_built(spec, grader, make_ref(g), rec)
+
+
+def judge_built(spec, grader, top, rec):
+    g = spec['grader']
     base_inputs = spec['inputs']
     n = len(base_inputs)
     grouped = bool(g.get('grouping'))
@@ -342,7 +388,8 @@ def judge_case(spec, rec):
     summary = []
     for od in orders:
         inputs = [base_inputs[i] for i in od]
-        status, res = call(grader, None, list(inputs))
+        with watchdog(30):
+            status, res = call(grader, None, list(inputs))
         rec.calls()
         if status == 'err':
             raise Violation('raised/' + type(res).__name__, 'grading a well-formed submission raised %s: %s'
@@ -441,42 +488,61 @@ def classify(spec, g, out, got, rec, n, grouped):
 # exhaustive parts
 
 
-def flat_spec(mats, ordered, pc, order=None, msgs=True):
-    """mats: list (one per answer list) of n x n credit matrices credit[answer][input]; one shared TableGrader."""
-    n = len(mats[0])
-    table, lists = {}, []
-    for li, m in enumerate(mats):
-        names = ['L%da%d' % (li, a) for a in range(n)]
-        lists.append(names)
-        for a in range(n):
-            table[names[a]] = {'s%d' % i: [m[a][i], ('m%d.%d.%d' % (li, a, i)) if msgs and m[a][i] else '']
-                               for i in range(n)}
-    spec = {'grader': {'k': 'L', 'ordered': ordered, 'pc': pc, 'grouping': [],
-                       'subs': {'k': 'T', 'table': table, 'wrong_msg': ''}},
-            'answers': lists[0] if len(lists) == 1 else {'lists': lists},
-            'inputs': ['s%d' % i for i in range(n)]}
-    if order is not None:
-        spec['perms'] = [order]
-    return spec
+ENUM = {}
+
+
+def enum_family(pal, n, nlists, ordered, pc):
+    """One grader for a whole family of credit matrices: the input token 'c<digits>' earns pal[digit r] from answer
+    row r (rows = answers of list 0, then of list 1, ...), so a choice of n tokens realises any matrix by columns."""
+    key = (tuple(pal), n, nlists, ordered, pc)
+    fam = ENUM.get(key)
+    if fam is None:
+        rows = n * nlists
+        tokens = ['c' + ''.join(map(str, d)) for d in itertools.product(range(len(pal)), repeat=rows)]
+        lists = [['L%da%d' % (li, a) for a in range(n)] for li in range(nlists)]
+        table = {}
+        for li in range(nlists):
+            for a in range(n):
+                r = li * n + a
+                table[lists[li][a]] = {t: [pal[int(t[1 + r])], 'm%d.%d.%s' % (li, a, t)]
+                                       for t in tokens if pal[int(t[1 + r])]}
+        spec = {'grader': {'k': 'L', 'ordered': ordered, 'pc': pc, 'grouping': [],
+                           'subs': {'k': 'T', 'table': table, 'wrong_msg': ''}},
+                'answers': lists[0] if nlists == 1 else {'lists': lists}}
+        fam = ENUM[key] = (spec, build(spec['grader'], spec['answers']), make_ref(spec['grader']))
+    return fam
+
+
+def judge_enum(spec, rec):
+    base, grader, top = enum_family(spec['pal'], spec['n'], spec['lists'], spec['ordered'], spec['pc'])
+    case = dict(base, inputs=['c' + ''.join(map(str, col)) for col in spec['cols']])
+    return judge_built(case, grader, top, rec)
+
+
+def enum_items(pal, n, nlists, configs):
+    rows = n * nlists
+    cols = [list(d) for d in itertools.product(range(len(pal)), repeat=rows)]
+    for ordered, pc in configs:
+        for choice in itertools.product(cols, repeat=n):
+            yield {'pal': list(pal), 'n': n, 'lists': nlists, 'ordered': ordered, 'pc': pc, 'cols': list(choice)}
 
 
 def items_enum2(tier):
-    for vals in itertools.product(PAL, repeat=4):
-        m = [list(vals[0:2]), list(vals[2:4])]
-        for ordered in (False, True):
-            for pc in (True, False):
-                for order in ([0, 1], [1, 0]):
-                    yield flat_spec([m], ordered, pc, order)
+    return enum_items(PAL, 2, 1, [(False, True), (False, False), (True, True), (True, False)])
 
 
 def items_enum3(tier):
-    for vals in itertools.product([0, 0.5, 1], repeat=9):
-        yield flat_spec([[list(vals[0:3]), list(vals[3:6]), list(vals[6:9])]], False, True, msgs=False)
+    yield from enum_items([0, 0.5, 1], 3, 1, [(False, True), (False, False)])
+    if tier == 'thorough':
+        yield from enum_items([0, 1 / 3, 0.7, 1], 3, 1, [(False, True)])
+        yield from enum_items([0, 1], 4, 1, [(False, True)])
 
 
 def items_enumlists(tier):
-    for vals in itertools.product([0, 0.5, 1], repeat=8):
-        yield flat_spec([[list(vals[0:2]), list(vals[2:4])], [list(vals[4:6]), list(vals[6:8])]], False, True)
+    yield from enum_items([0, 0.5, 1], 2, 2, [(False, True)])
+    if tier == 'thorough':
+        yield from enum_items([0, 0.7, 1], 2, 2, [(False, False), (True, True)])
+        yield from enum_items([0, 1], 2, 3, [(False, True)])
 
 
 def det_table(expects, tokens, salt):
@@ -543,7 +609,7 @@ def items_groupings(tier):
     for m, k in [(2, 2), (2, 3), (3, 2), (2, 4), (4, 2)]:
         for gr in equal_groupings(m, k):
             yield {'grouping': gr, 'ordered': False, 'variant': sum((i + 1) * x for i, x in enumerate(gr)) % 4}
-    top = 7 if tier == 'thorough' else 6
+    top = 7 if tier == 'thorough' else 5
     for n in range(2, top + 1):
         for gr in itertools.product(range(1, n + 1), repeat=n):
             m = max(gr)
@@ -834,9 +900,9 @@ def grouped_cases(draw):
 
 
 PARTS = [
-    Part('enum2', 'enum', judge_case, items=items_enum2, exhaustive=True),
-    Part('enum3', 'enum', judge_case, items=items_enum3, exhaustive=True),
-    Part('enumlists', 'enum', judge_case, items=items_enumlists, exhaustive=True),
+    Part('enum2', 'enum', judge_enum, items=items_enum2, exhaustive=True),
+    Part('enum3', 'enum', judge_enum, items=items_enum3, exhaustive=True),
+    Part('enumlists', 'enum', judge_enum, items=items_enumlists, exhaustive=True),
     Part('groupings', 'enum', judge_grouping, items=items_groupings, exhaustive=True),
     Part('flat', 'hyp', judge_case, strategy=lambda tier: flat_cases(), budget={'quick': 2400, 'thorough': 45000}),
     Part('grouped', 'hyp', judge_case, strategy=lambda tier: grouped_cases(),
